@@ -44,6 +44,15 @@ type kernelSpec struct {
 	Fuel int // fuel for loops (0 = no loops expected)
 }
 
+// kernelFuelExpr: for loops whose trip count depends on a slice length the fuel is a Coq nat expression over the
+// function's parameters (key: dir|recv|name), used instead of kernelSpec.Fuel
+var kernelFuelExpr = map[string]string{
+	"jpeg2000/colorspace||ApplyRCTToComponents":        "S (length r)",
+	"jpeg2000/colorspace||ApplyInverseRCTToComponents": "S (length y)",
+}
+
+func (s kernelSpec) fuelExpr() string { return kernelFuelExpr[kkey(s.Dir, s.Recv, s.Name)] }
+
 // The configured kernels.  Order is irrelevant (sorted topologically by calls).
 var kernelSpecs = []kernelSpec{
 	{"jpegls/runmode", "", "Abs", 0},
@@ -96,6 +105,8 @@ type kfunc struct {
 	recvNm string
 	ptr    bool
 	named  []string // named results (a bare return returns them)
+	// parameters of slice type: writing through them is visible to the caller and not supported
+	paramSlices map[string]bool
 }
 
 type kgen struct {
@@ -183,6 +194,11 @@ func (g *kgen) tyOf(t types.Type, pos token.Pos) kty {
 		}
 	case *types.Pointer:
 		return g.tyOf(u.Elem(), pos)
+	case *types.Slice:
+		et := g.tyOf(u.Elem(), pos)
+		if et.kind == "Z" {
+			return kty{kind: "list", bits: et.bits, signed: et.signed}
+		}
 	}
 	g.fail(pos, "unsupported type %s", t)
 	return kty{kind: "Z"}
@@ -219,6 +235,8 @@ func (k kty) coq() string {
 		return "bool"
 	case "struct":
 		return k.sname
+	case "list":
+		return "(list Z)"
 	}
 	return "Z"
 }
@@ -383,6 +401,14 @@ func (g *kgen) expr(e ast.Expr) string {
 			return "(" + a + " >=? " + b + ")"
 		}
 		g.fail(x.Pos(), "unsupported binary %s", x.Op)
+	case *ast.IndexExpr:
+		xt := g.tyOf(g.typeOfExpr(x.X), x.Pos())
+		if xt.kind != "list" {
+			g.fail(x.Pos(), "index of a non-slice")
+			return "0"
+		}
+		// the bounds check is emitted in front of the statement (stmtGuards)
+		return "(znth " + g.expr(x.X) + " " + g.expr(x.Index) + " 0)"
 	case *ast.CallExpr:
 		return g.call(x)
 	case *ast.CompositeLit:
@@ -431,12 +457,29 @@ func (g *kgen) call(x *ast.CallExpr) string {
 		return t.wrap(g.expr(x.Args[0]))
 	}
 	var args []string
+	if id, ok := x.Fun.(*ast.Ident); ok && id.Name == "make" {
+		if _, isB := info.Uses[id].(*types.Builtin); isB && len(x.Args) == 2 {
+			if g.tyOf(g.typeOfExpr(x.Args[0]), x.Pos()).kind == "list" {
+				return "(go_make " + g.expr(x.Args[1]) + ")"
+			}
+		}
+	}
 	for _, a := range x.Args {
 		args = append(args, g.expr(a))
 	}
 	switch f := x.Fun.(type) {
 	case *ast.Ident:
 		if _, ok := info.Uses[f].(*types.Builtin); ok {
+			switch f.Name {
+			case "len":
+				if g.tyOf(g.typeOfExpr(x.Args[0]), x.Pos()).kind == "list" {
+					return "(zlen " + args[0] + ")"
+				}
+			case "make":
+				if len(x.Args) == 2 && g.tyOf(g.typeOfExpr(x.Args[0]), x.Pos()).kind == "list" {
+					return "(go_make " + g.expr(x.Args[1]) + ")"
+				}
+			}
 			switch f.Name {
 			case "max", "min":
 				r := args[0]
@@ -490,6 +533,113 @@ func (g *kgen) call(x *ast.CallExpr) string {
 	return "0"
 }
 
+// ---- bounds checks of slices ----
+
+// exprGuards collects the run-time checks Go performs while evaluating e: index in range, make length
+// non-negative.  An indexed operand under the right side of && / || would be evaluated conditionally;
+// that is outside the subset.
+func (g *kgen) exprGuards(e ast.Expr, conditional bool, out *[]string) {
+	if e == nil {
+		return
+	}
+	switch x := e.(type) {
+	case *ast.ParenExpr:
+		g.exprGuards(x.X, conditional, out)
+	case *ast.IndexExpr:
+		if conditional {
+			g.fail(x.Pos(), "indexed operand evaluated conditionally (&&, ||)")
+		}
+		g.exprGuards(x.X, conditional, out)
+		g.exprGuards(x.Index, conditional, out)
+		i := g.expr(x.Index)
+		*out = append(*out, "((0 <=? "+i+") && ("+i+" <? zlen "+g.expr(x.X)+"))")
+	case *ast.UnaryExpr:
+		g.exprGuards(x.X, conditional, out)
+	case *ast.BinaryExpr:
+		g.exprGuards(x.X, conditional, out)
+		g.exprGuards(x.Y, conditional || x.Op == token.LAND || x.Op == token.LOR, out)
+	case *ast.CallExpr:
+		if id, ok := x.Fun.(*ast.Ident); ok && id.Name == "make" && len(x.Args) == 2 {
+			if conditional {
+				g.fail(x.Pos(), "make evaluated conditionally")
+			}
+			g.exprGuards(x.Args[1], conditional, out)
+			*out = append(*out, "(0 <=? "+g.expr(x.Args[1])+")")
+			return
+		}
+		for _, a := range x.Args {
+			g.exprGuards(a, conditional, out)
+		}
+	case *ast.SelectorExpr:
+		g.exprGuards(x.X, conditional, out)
+	case *ast.CompositeLit:
+		for _, el := range x.Elts {
+			if kv, ok := el.(*ast.KeyValueExpr); ok {
+				g.exprGuards(kv.Value, conditional, out)
+			}
+		}
+	}
+}
+
+// stmtGuards: the checks of the expressions a statement evaluates itself (not its nested blocks)
+func (g *kgen) stmtGuards(s ast.Stmt) []string {
+	var out []string
+	switch x := s.(type) {
+	case *ast.AssignStmt:
+		for _, r := range x.Rhs {
+			g.exprGuards(r, false, &out)
+		}
+		for _, l := range x.Lhs {
+			g.exprGuards(l, false, &out)
+		}
+	case *ast.IncDecStmt:
+		g.exprGuards(x.X, false, &out)
+	case *ast.ReturnStmt:
+		for _, r := range x.Results {
+			g.exprGuards(r, false, &out)
+		}
+	case *ast.DeclStmt:
+		if gd, ok := x.Decl.(*ast.GenDecl); ok {
+			for _, sp := range gd.Specs {
+				if vs, ok := sp.(*ast.ValueSpec); ok {
+					for _, v := range vs.Values {
+						g.exprGuards(v, false, &out)
+					}
+				}
+			}
+		}
+	case *ast.IfStmt:
+		if x.Init == nil {
+			g.exprGuards(x.Cond, false, &out)
+		}
+	}
+	return out
+}
+
+func guarded(guards []string, body string) string {
+	if len(guards) == 0 {
+		return body
+	}
+	return "if " + strings.Join(guards, " && ") + " then (" + body + ")\n  else None"
+}
+
+// usesSlices: the function indexes or makes slices (its translation is option-valued: None = run-time panic)
+func usesSlices(fd *ast.FuncDecl) bool {
+	found := false
+	ast.Inspect(fd.Body, func(n ast.Node) bool {
+		switch x := n.(type) {
+		case *ast.IndexExpr:
+			found = true
+		case *ast.CallExpr:
+			if id, ok := x.Fun.(*ast.Ident); ok && id.Name == "make" {
+				found = true
+			}
+		}
+		return !found
+	})
+	return found
+}
+
 // ---- statements ----
 
 type kvar struct {
@@ -532,6 +682,15 @@ func (g *kgen) lhsVars(e ast.Expr) []kvar {
 	case *ast.SelectorExpr:
 		if id, ok := x.X.(*ast.Ident); ok {
 			return []kvar{{fieldVar(cid(id.Name), x.Sel.Name), g.tyOf(g.typeOfExpr(x), x.Pos())}}
+		}
+	case *ast.IndexExpr:
+		if id, ok := x.X.(*ast.Ident); ok {
+			if t := g.tyOf(g.typeOfExpr(id), x.Pos()); t.kind == "list" {
+				if g.cur.paramSlices[cid(id.Name)] {
+					g.fail(x.Pos(), "in-place update of a parameter slice (the caller would see it)")
+				}
+				return []kvar{{cid(id.Name), t}}
+			}
 		}
 	}
 	g.fail(e.Pos(), "unsupported assignment target")
@@ -674,6 +833,16 @@ func (g *kgen) block(stmts []ast.Stmt, sc kscope, tail func(kscope) string) stri
 	}
 	s, rest := stmts[0], stmts[1:]
 	cont := func(sc2 kscope) string { return g.block(rest, sc2, tail) }
+	if gs := g.stmtGuards(s); len(gs) > 0 {
+		if !g.cur.opt {
+			g.fail(s.Pos(), "internal: bounds check in a total function")
+		}
+		return guarded(gs, g.stmt(s, rest, sc, tail, cont))
+	}
+	return g.stmt(s, rest, sc, tail, cont)
+}
+
+func (g *kgen) stmt(s ast.Stmt, rest []ast.Stmt, sc kscope, tail func(kscope) string, cont func(kscope) string) string {
 	switch x := s.(type) {
 	case *ast.ReturnStmt:
 		return g.ret(g.results(x.Results))
@@ -763,8 +932,13 @@ func (g *kgen) assign(x *ast.AssignStmt, sc kscope, cont func(kscope) string) st
 		if len(x.Rhs) == 1 && len(x.Lhs) > 1 {
 			// multi-value call
 			var names []string
+			post := ""
 			for i, p := range pats {
-				if len(p) == 1 {
+				if ie, ok := x.Lhs[i].(*ast.IndexExpr); ok && len(p) == 1 {
+					tmp := fmt.Sprintf("idx_tmp%d", i)
+					names = append(names, tmp)
+					post += "let " + p[0].name + " := go_upd " + p[0].name + " " + g.expr(ie.Index) + " " + tmp + " in\n  "
+				} else if len(p) == 1 {
 					names = append(names, p[0].name)
 				} else if len(p) == 0 {
 					names = append(names, "_")
@@ -772,7 +946,7 @@ func (g *kgen) assign(x *ast.AssignStmt, sc kscope, cont func(kscope) string) st
 					g.fail(x.Lhs[i].Pos(), "struct in tuple assignment")
 				}
 			}
-			return g.bindCall(x.Rhs[0], "'("+strings.Join(names, ", ")+")", cont(nsc))
+			return g.bindCall(x.Rhs[0], "'("+strings.Join(names, ", ")+")", post+cont(nsc))
 		}
 		if len(x.Rhs) != len(x.Lhs) {
 			g.fail(x.Pos(), "assignment arity")
@@ -783,6 +957,9 @@ func (g *kgen) assign(x *ast.AssignStmt, sc kscope, cont func(kscope) string) st
 			t := g.tyOf(g.typeOfExpr(l), l.Pos())
 			if id, isId := l.(*ast.Ident); isId && id.Name == "_" {
 				return cont(nsc)
+			}
+			if ie, ok := l.(*ast.IndexExpr); ok && len(pats[0]) == 1 {
+				return "let " + pats[0][0].name + " := go_upd " + pats[0][0].name + " " + g.expr(ie.Index) + " " + g.expr(r) + " in\n  " + cont(nsc)
 			}
 			if t.kind == "struct" {
 				id, ok := l.(*ast.Ident)
@@ -834,6 +1011,9 @@ func (g *kgen) assign(x *ast.AssignStmt, sc kscope, cont func(kscope) string) st
 	// type of the synthetic expression = type of the target
 	g.cur.pkg.Info.Types[be] = types.TypeAndValue{Type: g.typeOfExpr(x.Lhs[0])}
 	vs := g.lhsVars(x.Lhs[0])
+	if ie, ok := x.Lhs[0].(*ast.IndexExpr); ok && len(vs) == 1 {
+		return "let " + vs[0].name + " := go_upd " + vs[0].name + " " + g.expr(ie.Index) + " " + g.expr(be) + " in\n  " + cont(sc)
+	}
 	return g.letBind(vs, g.expr(be), cont(sc))
 }
 
@@ -978,7 +1158,7 @@ func (g *kgen) forStmt(x *ast.ForStmt, sc kscope, cont func(kscope) string) stri
 		g.fail(x.Pos(), "loop without condition")
 		return "0"
 	}
-	if g.cur.spec.Fuel <= 0 {
+	if g.cur.spec.Fuel <= 0 && g.cur.spec.fuelExpr() == "" {
 		g.fail(x.Pos(), "loop in a kernel configured without fuel")
 		return "0"
 	}
@@ -1011,10 +1191,16 @@ func (g *kgen) forStmt(x *ast.ForStmt, sc kscope, cont func(kscope) string) stri
 	}
 	rec := "(" + name + " fuel' " + strings.Join(append(append([]string{}, args...), stArgs...), " ") + ")"
 	bodyT := g.block(body, sc, func(kscope) string { return rec })
-	aux := fmt.Sprintf("Fixpoint %s (fuel : nat) %s : option %s :=\n  match fuel with\n  | O => None\n  | S fuel' =>\n  if %s then (%s)\n  else Some %s\n  end.\n\n",
-		name, strings.Join(params, " "), tupleType(vs), g.expr(x.Cond), bodyT, tuple(vs))
+	var cg []string
+	g.exprGuards(x.Cond, false, &cg)
+	aux := fmt.Sprintf("Fixpoint %s (fuel : nat) %s : option %s :=\n  match fuel with\n  | O => None\n  | S fuel' =>\n  %s\n  end.\n\n",
+		name, strings.Join(params, " "), tupleType(vs), guarded(cg, "if "+g.expr(x.Cond)+" then ("+bodyT+")\n  else Some "+tuple(vs)))
 	g.aux = append(g.aux, aux)
-	call := "(" + name + " " + fmt.Sprint(g.cur.spec.Fuel) + "%nat " + strings.Join(append(append([]string{}, args...), stArgs...), " ") + ")"
+	fuel := fmt.Sprint(g.cur.spec.Fuel) + "%nat"
+	if fe := g.cur.spec.fuelExpr(); fe != "" {
+		fuel = "(" + fe + ")"
+	}
+	call := "(" + name + " " + fuel + " " + strings.Join(append(append([]string{}, args...), stArgs...), " ") + ")"
 	pat := tuple(vs)
 	return "match " + call + " with None => None | Some " + pat + " =>\n  " + cont(sc) + " end"
 }
@@ -1103,6 +1289,12 @@ func (g *kgen) translate(k *kfunc) {
 				}
 				continue
 			}
+			if t.kind == "list" {
+				if k.paramSlices == nil {
+					k.paramSlices = map[string]bool{}
+				}
+				k.paramSlices[cid(n.Name)] = true
+			}
 			params = append(params, fmt.Sprintf("(%s : %s)", cid(n.Name), t.coq()))
 			// parameters of sized integer types arrive already in range
 			sc = append(sc, kvar{cid(n.Name), t})
@@ -1119,6 +1311,9 @@ func (g *kgen) translate(k *kfunc) {
 				zero := "0"
 				if t.kind == "bool" {
 					zero = "false"
+				}
+				if t.kind == "list" {
+					zero = "(@nil Z)"
 				}
 				pre += "let " + cid(n.Name) + " := " + zero + " in\n  "
 				sc = append(sc, kvar{cid(n.Name), t})
@@ -1195,7 +1390,7 @@ func runKernels(specs []kernelSpec, outFile string, requires string) error {
 	}
 	for _, key := range keys {
 		k := g.funcs[key]
-		k.opt = g.usesLoopOrOptCallee(k, map[string]bool{})
+		k.opt = g.usesLoopOrOptCallee(k, map[string]bool{}) || usesSlices(k.decl)
 	}
 	for _, key := range keys {
 		g.translate(g.funcs[key])
@@ -1268,4 +1463,16 @@ func init() {
 		}
 		return runKernels(append(append([]kernelSpec{}, kernelSpecs...), kernelSpecsMore...), "KernelsMore_gen.v", "")
 	})
+	// kernels over slices: index reads/writes with Go's bounds checks explicit (None = run-time panic), make,
+	// len; loop fuel from the slice length.  go_make / go_upd are defined in coq/Tie/GoSem.v.
+	register("kernels_slices", func() error {
+		return runKernels(kernelSpecsSlices, "KernelsSlices_gen.v", "From V Require Import Tie.GoSem.")
+	})
+}
+
+var kernelSpecsSlices = []kernelSpec{
+	{"jpeg2000/colorspace", "", "RCTForward", 0},
+	{"jpeg2000/colorspace", "", "RCTInverse", 0},
+	{"jpeg2000/colorspace", "", "ApplyRCTToComponents", 0},
+	{"jpeg2000/colorspace", "", "ApplyInverseRCTToComponents", 0},
 }
